@@ -287,6 +287,8 @@ func runC02(c *mon.Ctx) {
 				preSigs[[2]string{nm, kid}] = b
 			}
 			obj.Set("signatures", sigs)
+		} else if r.Chance(0.15) {
+			obj.Set("signatures", ref.NullV()) // present, and holding nothing yet
 		}
 		if r.Chance(0.5) {
 			obj.Set("unsigned", gen.RandValue(r, gen.JSONOpts{Depth: 2, Width: 3}))
@@ -304,7 +306,7 @@ func runC02(c *mon.Ctx) {
 		var foreign *ref.Value
 		if r.Chance(0.15) {
 			sigs := obj.Get("signatures")
-			if sigs == nil {
+			if sigs == nil || sigs.K != ref.Obj {
 				sigs = ref.O()
 				obj.Set("signatures", sigs)
 			}
@@ -433,8 +435,13 @@ func runC02(c *mon.Ctx) {
 				}
 			}
 			// completeness under re-serialisation and unsigned edits
-			for p := 0; p < 3; p++ {
+			for p := 0; p < 4; p++ {
 				t := sc.Bytes(final)
+				if p == 3 {
+					// every "/" written "\/" and nothing else touched, as some encoders do by default: base64 signatures
+					// are full of them
+					t = (&gen.Render{Solidus: true}).Bytes(final)
+				}
 				for _, s := range live {
 					c.Count("verify_reserialised")
 					if err := gmsl.VerifyJSON(s.name, s.kid, s.pub, t); err != nil {
